@@ -178,6 +178,15 @@ func upcastDomain(lines []string) []string {
 	nopt := 0
 	for _, line := range lines {
 		f := strings.Fields(line)
+		if f[0] == "opterrh" {
+			// the error handler handed to New as an option (before or between the upcaster options)
+			nopt++
+			opts = append(opts, eb.WithUpcastErrorHandler(func(eventType string, data json.RawMessage, err error) {
+				errCalls = append(errCalls, [2]string{fmt.Sprint(tyCode(eventType)), dataToList(data)})
+			}))
+			out = append(out, "opterrh")
+			continue
+		}
 		if f[0] != "optreg" || len(f) != 6 {
 			break
 		}
